@@ -174,13 +174,10 @@ def tree_correspondence(ctx):
     for src, t, ans in zip(srcs, trees, answers):
         ctx.evaluations += 1
         ctx.corr_cases += 1
-        before = ast.dump(t)
-        try:
-            c = "(ok %s)" % sc.enc_tree(remove_empty_metadata(t))
+        try:     # on a copy: whether the argument is modified is C11's/C15's concern, not C12's
+            c = "(ok %s)" % sc.enc_tree(remove_empty_metadata(copy.deepcopy(t)))
         except Exception as ex:  # noqa
             c = "(err %s)" % type(ex).__name__
-        if ast.dump(t) != before:
-            ctx.fail("failing-input", "remove_empty_metadata modified its argument %s" % src, {"oracle": "tree", "src": src})
         n = sum(1 for _ in _roots(t))
         try:
             f = "(ok %s)" % sc.enc_tree(find_EventDataset(t))
